@@ -76,11 +76,8 @@ package filterstorage
 //@   preserves Default.*, allmaps(ruleLists), rulelist.Refreshable.*, rulelist.filter.*, indexData.*, allelems(*indexData)
 
 //@ import agdhttp github.com/AdguardTeam/AdGuardDNS/internal/agdhttp
-//@ fun idOK(key string) bool
 //@ fun urlOK(u string) bool
-//@ func filter.NewID
-//@   modifies nothing
-//@   ensures (err == nil) == idOK(s)
+// (filter.NewID, idOK: contracts/ext/pb.spec)
 //@ func agdhttp.ParseHTTPURL
 //@   modifies nothing
 //@   ensures (err == nil) == urlOK(s) && (err == nil ==> u != nil)
